@@ -100,3 +100,40 @@ package logic
 //@   ensures [C16.delin.ctx]     group.sdpCtx == nil && isnil(group.patpmt)
 //@   ensures [C16.delin.caches]  isnil(group.rtmpGopCache.VideoSeqHeader) && isnil(group.rtmpGopCache.AacSeqHeader) && isnil(group.rtmpGopCache.MetadataEnsureWithSetDataFrame) && group.rtmpGopCache.gopRingFirst == group.rtmpGopCache.gopRingLast && isnil(group.httpflvGopCache.VideoSeqHeader) && isnil(group.httpflvGopCache.AacSeqHeader) && group.httpflvGopCache.gopRingFirst == group.httpflvGopCache.gopRingLast
 //@ end
+
+// ---- C01: nothing duplicated — the subscriber being admitted is excluded from the flush of older data -------------
+// writev2RtmpSubSessions skips sessions that are still fresh, so the admitted session must still be fresh
+// while the merge writer is flushed on its behalf (it has just been sent the GOP cache, which already
+// contains what the merge buffer holds).
+//@ func (*Group).broadcastByRtmpMsg
+//@   props C01 C05
+//@   assert after "group.rtmpMergeWriter.Flush()"@1 [C01.fresh.flush] session.IsFresh
+//@ end
+
+//@ func (*Group).writev2RtmpSubSessions
+//@   props C01
+//@ end
+
+// C14: simple auth. check admits only a lower-cased lal_secret equal to the override secret (when one is
+// configured) or to md5(key+streamName); the On* callbacks consult check exactly for the enabled protocol/direction.
+//@ func (*SimpleAuthCtx).check
+//@   props C14
+//@   opaque
+//@   returns [C14.simple.accept] result == nil ==> (len(s.config.DangerousLalSecret) != 0 && v == s.config.DangerousLalSecret) || (defined(se) && v == se)
+//@   returns [C14.simple.nonempty] result == nil ==> err == nil && len(v) != 0
+//@ end
+//@ func (*SimpleAuthCtx).OnPubStart
+//@   props C14
+//@   ensures [C14.simple.pub.on] (s.config.PubRtmpEnable && info.Protocol == "RTMP") || (s.config.PubRtspEnable && info.Protocol == "RTSP") ==> called(check) && result == callresult(check)
+//@   ensures [C14.simple.pub.off] !(s.config.PubRtmpEnable && info.Protocol == "RTMP") && !(s.config.PubRtspEnable && info.Protocol == "RTSP") ==> result == nil
+//@ end
+//@ func (*SimpleAuthCtx).OnSubStart
+//@   props C14
+//@   ensures [C14.simple.sub.on] (s.config.SubRtmpEnable && info.Protocol == "RTMP") || (s.config.SubHttpflvEnable && info.Protocol == "FLV") || (s.config.SubHttptsEnable && info.Protocol == "TS") || (s.config.SubRtspEnable && info.Protocol == "RTSP") ==> called(check) && result == callresult(check)
+//@   ensures [C14.simple.sub.off] !(s.config.SubRtmpEnable && info.Protocol == "RTMP") && !(s.config.SubHttpflvEnable && info.Protocol == "FLV") && !(s.config.SubHttptsEnable && info.Protocol == "TS") && !(s.config.SubRtspEnable && info.Protocol == "RTSP") ==> result == nil
+//@ end
+//@ func (*SimpleAuthCtx).OnHls
+//@   props C14
+//@   ensures [C14.simple.hls.on] s.config.HlsM3u8Enable ==> called(check) && result == callresult(check)
+//@   ensures [C14.simple.hls.off] !s.config.HlsM3u8Enable ==> result == nil
+//@ end
